@@ -32,13 +32,17 @@ pub const fn q_w(w: u32) -> u128 { odd_scaled(&PHI_MINUS_1, w) }
 /// section 3, primitive operations on w-bit words
 pub const fn add(w: u32, a: u128, b: u128) -> u128 { a.wrapping_add(b) & mask(w) }
 pub const fn sub(w: u32, a: u128, b: u128) -> u128 { a.wrapping_sub(b) & mask(w) }
-/// x <<< y: "only the lg(w) low-order bits of y are used" (w a power of two); in general y mod w
+/// rotation amount: "only the lg(w) low-order bits of y are used" (w a power of two), i.e. y mod w in general
+pub const fn rot_amount(w: u32, y: u128) -> u32 {
+    if w.is_power_of_two() { (y & (w as u128 - 1)) as u32 } else { (y % (w as u128)) as u32 }
+}
+/// x <<< y
 pub const fn rotl(w: u32, x: u128, y: u128) -> u128 {
-    let n = (y % (w as u128)) as u32;
+    let n = rot_amount(w, y);
     if n == 0 { x & mask(w) } else { ((x << n) | ((x & mask(w)) >> (w - n))) & mask(w) }
 }
 pub const fn rotr(w: u32, x: u128, y: u128) -> u128 {
-    let n = (y % (w as u128)) as u32;
+    let n = rot_amount(w, y);
     if n == 0 { x & mask(w) } else { (((x & mask(w)) >> n) | (x << (w - n))) & mask(w) }
 }
 
